@@ -59,6 +59,10 @@ def cases(tier, seed):
                     if tier == 'quick' and (nt, bo) != combos[0] and op in ('append_twice', 'md_popitem', 'md_del', 'truncatem1'):
                         continue
                     yield {'kind': kind, 'start': start, 'op': op, 'numtype': nt, 'bo': bo}
+        # a ragged array with a narrow index type that is about to overflow (250 of 255 positions used): the append of
+        # the third item (end 256) has to fail, and no state may show anything but whole earlier items
+        for op in ('append', 'iterappend3', 'append_twice', 'iterappend_empty_chunks'):
+            yield {'kind': 'ragged_u8', 'start': 'nonempty', 'op': op, 'numtype': nt, 'bo': bo}
 
 
 class Recorder:
@@ -175,15 +179,17 @@ def run_case(case, env):
     dtype = gens.dt(case['numtype'], case['bo'])
     kind, op, start = case['kind'], case['op'], case['start']
     ragged = kind.startswith('ragged')
-    trail = {'array1d': (), 'array2d': (3,), 'ragged': (), 'ragged2': (2,)}[kind]
+    trail = {'array1d': (), 'array2d': (3,), 'ragged': (), 'ragged2': (2,), 'ragged_u8': ()}[kind]
     d = env.scratch.new('z')
     try:
         path = d / 'arr'
         md0 = {'a': 1, 'b': [1, 2]}
         if ragged:
-            items0 = [] if start == 'empty' else [gens.random_values(rng, dtype, (k,) + trail) for k in (2, 0, 3)]
+            items0 = [] if start == 'empty' else [gens.random_values(rng, dtype, (k,) + trail) for k in
+                                                  ((250,) if kind == 'ragged_u8' else (2, 0, 3))]
             h = D.asraggedarray(path, [gens.random_values(rng, dtype, (1,) + trail)] if start == 'empty' else
-                                [x.copy() for x in items0], dtype=dtype, metadata=md0, accessmode='r+')
+                                [x.copy() for x in items0], dtype=dtype, metadata=md0, accessmode='r+',
+                                **({'indextype': 'uint8'} if kind == 'ragged_u8' else {}))
             if start == 'empty':
                 D.truncate_raggedarray(h, 0)
                 h = D.RaggedArray(path, accessmode='r+')
@@ -203,6 +209,9 @@ def run_case(case, env):
             return out
 
         legit = [cat(0)]
+        if kind == 'ragged_u8':
+            # the item that would end at position 256 cannot be stored: the call raises, and only the items before it count
+            legit = [cat(0), cat(1), cat(2)]
         raised = None
         src_obj = None
         if op == 'iterappend_from_darr':
